@@ -226,7 +226,7 @@ def _run_deep(spec):
     from vpbt.core import Collector, default_recursion_limit
 
     col = Collector()
-    f = {"nest": c02._big_nest, "comb": c02._big_comb}[spec[2]]
+    f = {"nest": c02._big_nest, "comb": c02._big_comb, "exits": c02._big_exits, "entries": c02._big_entries}[spec[2]]
     intg = f(spec[1])
     g = gg.restyle(intg, "num")
     for stage in ("closed", "branch"):
@@ -276,7 +276,7 @@ def plan(tier, seed):
     if tier == "quick":
         specs += [("byteflow", s, 16, 12) for s in range(16)]
         specs += [("arb", seed, s, 150) for s in range(8)]
-        specs += [("deep", 120, "comb"), ("deep", 120, "nest"), ("deep", 300, "comb")]
+        specs += [("deep", 120, "comb"), ("deep", 120, "nest"), ("deep", 300, "comb"), ("deep", 9, "exits"), ("deep", 9, "entries")]
     else:
         specs += [("byteflow", s, 16, 10**9) for s in range(16)]
         specs += [("arb", seed, s, 3000) for s in range(16)]
